@@ -164,6 +164,9 @@ func absNum(f float64, t string) any {
 	case math.Abs(f) < 200000:
 		return map[string]any{"k": "num", "v": int64(math.Round(f * fixScale)), "c": int64(math.Round(f * 100)), "t": t}
 	}
+	if f == math.Trunc(f) && math.Abs(f) < 1e18 { // a whole number: the same text as the integer of that value (1700000001.0 and 1700000001 are one number)
+		return map[string]any{"k": "big", "v": strconv.FormatInt(int64(f), 10), "t": t}
+	}
 	return map[string]any{"k": "big", "v": strconv.FormatFloat(f, 'g', -1, 64), "t": t}
 }
 
